@@ -6,6 +6,7 @@ import (
 	"fmt"
 	"os"
 	"path/filepath"
+	"regexp"
 	"sort"
 	"strings"
 	"sync"
@@ -19,12 +20,13 @@ type e1Case struct {
 	Roles []string
 	Extra string // extra source (declarations) for this case
 	// for non-type-driven cases (C13..C18) the registration is given verbatim
-	Funcs map[string]string // role -> Go func literal source
-	Zero  string            // Go expression of (*T)(nil)
-	Tags  map[string]string
-	Group string // cases sharing a non-empty group+AssignKey must not share a package
-	Suspect bool // expected to fail generation/compilation (listed finding): isolated in a package of its own
-	Key   string // for cases without Ty: cases with equal keys must not share a package
+	Funcs   map[string]string // role -> Go func literal source
+	Zero    string            // Go expression of (*T)(nil)
+	Tags    map[string]string
+	Group   string // cases sharing a non-empty group+AssignKey must not share a package
+	TestSrc string // source placed in an in-package _test.go file
+	Suspect bool   // expected to fail generation/compilation (listed finding): isolated in a package of its own
+	Key     string // for cases without Ty: cases with equal keys must not share a package
 }
 
 // roleSrc returns the function literal for a role on type T.
@@ -192,6 +194,15 @@ func scenarioFiles(cases []*e1Case, harnessExtra string) map[string]string {
 	cb.WriteString("}\n")
 	files["p/cases.go"] = "package p\n\n" + importsFor(cb.String()) + cb.String()
 
+	var tb strings.Builder
+	for _, c := range cases {
+		if c.TestSrc != "" {
+			tb.WriteString(c.TestSrc + "\n")
+		}
+	}
+	if tb.Len() > 0 {
+		files["p/cases_test.go"] = "package p\n\n" + importsFor(tb.String()) + tb.String()
+	}
 	files["main.go"] = `package main
 
 import (
@@ -254,10 +265,10 @@ type e1Failure struct {
 }
 
 type e1Result struct {
-	Records  []map[string]interface{} // decoded harness records
-	Failures []e1Failure
-	GenRuns  int
-	Builds   int
+	Records    []map[string]interface{} // decoded harness records
+	Failures   []e1Failure
+	GenRuns    int
+	Builds     int
 	HarnessErr []string
 }
 
@@ -292,14 +303,46 @@ func runBatchPipeline(b *e1Batch, prop string, env []string, runs int, hooks ...
 			return
 		}
 		if g.Exit != 0 {
+			if os.Getenv("VERIF_DEBUG") != "" {
+				fmt.Fprintf(os.Stderr, "DEBUG generate failure in %s (%d cases): %s\n", name, len(cases), head(firstErrorLine(g.Stderr), 300))
+			}
 			fail("generate", fmt.Sprintf("goderive exit %d\n%s", g.Exit, g.Stderr))
 			return
 		}
 		// type-check the scenario package alone first (no link): cheap bisection steps
 		pc := run(dir, 10*time.Minute, nil, "go", "build", "-gcflags=-e", "./p")
 		res.Builds++
+		if pc.Exit == 0 && files["p/cases_test.go"] != "" {
+			// in-package test files are only type-checked when the test binary is built
+			pc = run(dir, 10*time.Minute, nil, "go", "test", "-count=1", "-run", "^$", "./p")
+			pc.Stderr += pc.Stdout
+			res.Builds++
+		}
 		if pc.Exit != 0 {
+			if len(cases) > 1 {
+				// errors lying inside the function generated for one case's own call are
+				// attributed to that case; each is confirmed in a package of its own
+				if bad := attributeErrors(dir, pc.Stderr, cases); len(bad) > 0 && len(bad) < len(cases) {
+					var rest []*e1Case
+					for _, c := range cases {
+						if bad[c.ID] {
+							rec([]*e1Case{c}, name+"x"+c.ID)
+						} else {
+							rest = append(rest, c)
+						}
+					}
+					rec(rest, name+"r")
+					return
+				}
+			}
 			fail("compile", pc.Stderr)
+			return
+		}
+		if prop == "C01" {
+			// C01 is decided by generation + type-check alone
+			for _, cs := range cases {
+				res.Records = append(res.Records, map[string]interface{}{"k": "stat", "case": cs.ID, "type": caseLabel(cs), "states": float64(1), "evals": float64(1), "nontriv": float64(1), "run": float64(0)})
+			}
 			return
 		}
 		c := run(dir, 10*time.Minute, nil, "go", "build", "-gcflags=-e", "-o", "h.bin", ".")
@@ -394,4 +437,41 @@ func firstErrorLine(out string) string {
 		return l
 	}
 	return ""
+}
+
+var gcErrRe = regexp.MustCompile(`(?m)^(?:\./)?p/derived\.gen\.go:(\d+):\d+: `)
+var genFuncRe = regexp.MustCompile(`^func (derive[A-Za-z0-9]*_(c\d+))\(`)
+
+// attributeErrors maps compiler errors in derived.gen.go to the cases whose own
+// (uniquely named) generated function they lie in.
+func attributeErrors(dir, stderr string, cases []*e1Case) map[string]bool {
+	src := readFileOr(filepath.Join(dir, "p/derived.gen.go"), "")
+	if src == "" {
+		return nil
+	}
+	lines := strings.Split(src, "\n")
+	owner := make([]string, len(lines)+2)
+	cur := ""
+	for i, l := range lines {
+		if strings.HasPrefix(l, "func ") {
+			cur = ""
+			if m := genFuncRe.FindStringSubmatch(l); m != nil {
+				cur = m[2]
+			}
+		}
+		owner[i+1] = cur
+	}
+	ids := map[string]bool{}
+	for _, c := range cases {
+		ids[c.ID] = true
+	}
+	bad := map[string]bool{}
+	for _, m := range gcErrRe.FindAllStringSubmatch(stderr, -1) {
+		var ln int
+		fmt.Sscanf(m[1], "%d", &ln)
+		if ln > 0 && ln < len(owner) && owner[ln] != "" && ids[owner[ln]] {
+			bad[owner[ln]] = true
+		}
+	}
+	return bad
 }
